@@ -128,6 +128,7 @@ fn run_one(sim: Sim, prop: &str, index: usize, seed: u64, replay: Option<&[u64]>
     let mut ctx = Ctx::new(prop, trace);
     ctx.hash.feed_u64(seed);
     lockstep::set_perturb(mix(&[seed, 0x10c5]) | 1);
+    codec::reset_mk_counter();
     sim.run(&mut ch, &mut ctx);
     lockstep::set_perturb(0);
     reed_solomon_simd::verif::set_poison(0);
